@@ -307,6 +307,9 @@ func (e *Eng) evalSpec(st *State, x *SExpr, env map[string]*Val, old map[string]
 				return scalar(e.implTerm(a, e.resolveTypeName(tn)), "Bool", nil)
 			case "deref":
 				a := e.evalSpec(st, x.Args[1], env, old)
+				if a.Pointee != nil {
+					return a.Pointee
+				}
 				if a.Go != nil {
 					if pt, ok := a.Go.Underlying().(*types.Pointer); ok {
 						name, _ := e.heapName("P", pt.Elem())
